@@ -2,6 +2,7 @@ import Splipy.Driver.Common
 import Splipy.Driver.C09
 import Splipy.Driver.C15
 import Splipy.Model.History
+import Splipy.Model.Accessors
 
 /-!
 Protocol handler of property C10 (histories over the public API, well-formedness verdicts,
@@ -118,7 +119,46 @@ def SymInstr.recv2 : SymInstr → Option ℕ
   | .plain (.identical _ j _) => some j
   | _ => none
 
-def encodeEntry (idx : ℕ) (o : Obj ℚ) : Val := .list [Val.ofNat idx, encodeObj o, Val.ofBool o.wfB]
+/-- The flat indices at which `obj[i]` is probed: both ends, the middle, negative and out-of-range values. -/
+def probes (n : ℕ) : List Int :=
+  [0, 1, (n / 2 : ℕ), (n : Int) - 1, -1, -(n : Int), (n : Int), -(n : Int) - 1, (n : Int) + 3]
+
+def sameObj (a b : Obj ℚ) : Bool :=
+  a.rational == b.rational && a.cps.shape == b.cps.shape && a.cps.data.toList == b.cps.data.toList &&
+  a.bases.size == b.bases.size &&
+  (List.zip a.bases.toList b.bases.toList).all (fun (x, y) =>
+    x.order == y.order && x.periodic == y.periodic && x.knots.toList == y.knots.toList)
+
+/-- The accessor block of one object (`Model/Accessors.lean`):
+    `[len, shape, order, [knots…], [knot_spans…], start, end, [obj[i] for the probes], [obj[multi-index] …],
+      data after obj[n/2] = [1,2,…], data after obj[multi(n/2)] = [7] (scalar), clone/re-construction equal,
+      evaluate(start/mid/end per direction): shape | err]`. -/
+def encodeAcc (tol : ℚ) (o : Obj ℚ) : Val :=
+  let n := o.len
+  let sh := o.shapeAcc
+  let flat := (probes n).map (fun (i : Int) => ofExcept ofArr (o.getFlat i))
+  let multi := (probes n).map (fun (i : Int) =>
+    if 0 ≤ i ∧ i < (n : Int) then
+      ofExcept encodeTensor (o.getMulti ((FileIO.unravelF sh i.toNat).map (fun j => (j : Int))))
+    else ofExcept encodeTensor (o.getMulti (sh.map (fun m => (m : Int) + i))))
+  let cp : Array ℚ := Array.ofFn (n := o.ncomp) (fun c => (c.val : ℚ) + 1)
+  let mid : Int := (n / 2 : ℕ)
+  let set1 := ofExcept (fun (r : Obj ℚ) => ofArr r.cps.data) (o.setFlat mid cp)
+  let set2 := ofExcept (fun (r : Obj ℚ) => ofArr r.cps.data)
+    (o.setMulti ((FileIO.unravelF sh (n / 2)).map (fun j => (j : Int))) #[7])
+  let recon := match Obj.construct o.bases o.cps o.rational with
+    | .ok r => sameObj r o && sameObj o.clone o
+    | .error _ => false
+  let params := o.bases.toList.map (fun b => [b.start, (b.start + b.stop) / 2, b.stop])
+  let ev := match o.evaluate tol params true with
+    | .ok t => Val.ofNats t.shape
+    | .error e => e.toVal
+  .list [Val.ofNat n, Val.ofNats sh, Val.ofNats o.orderAcc, .list (o.knotsAcc.map ofArr),
+         .list ((o.knotSpansAcc tol).map ofArr), Val.ofRats o.startAcc, Val.ofRats o.endAcc,
+         .list flat, .list multi, set1, set2, Val.ofBool recon, ev]
+
+def encodeEntry (tol : ℚ) (idx : ℕ) (o : Obj ℚ) : Val :=
+  .list [Val.ofNat idx, encodeObj o, Val.ofBool o.wfB, encodeAcc tol o]
 
 /-- The trace: after every instruction the CHANGED part of the pool (the receiver and the objects
     appended by the call), each with the verdict of `Obj.wfB`; the first exception ends it. -/
@@ -130,14 +170,14 @@ def traceSym (tol : ℚ) : List (Obj ℚ) → List SymInstr → List Val
     | .ok pool' =>
       let i := s.recv
       let second := match s.recv2 with
-        | some j => [encodeEntry j (pool'.getD j default)]
+        | some j => [encodeEntry tol j (pool'.getD j default)]
         | none => []
-      let changed := encodeEntry i (pool'.getD i default) :: second ++
-        (List.range' pool.length (pool'.length - pool.length)).map (fun j => encodeEntry j (pool'.getD j default))
+      let changed := encodeEntry tol i (pool'.getD i default) :: second ++
+        (List.range' pool.length (pool'.length - pool.length)).map (fun j => encodeEntry tol j (pool'.getD j default))
       .list changed :: traceSym tol pool' rest
 
-/-- `c10_history <[obj…]> <tol> <[instr…]>` → `[[wfB of the initial objects…], [step…]]`, a step being
-      `[[idx, obj, wfB]…]` (receiver first, then the created objects) or `err:<class>` (last entry).
+/-- `c10_history <[obj…]> <tol> <[instr…]>` → `[[[wfB, accessors] of the initial objects…], [step…]]`, a step being
+      `[[idx, obj, wfB, accessors]…]` (receiver first, then the created objects; accessors: `encodeAcc`) or `err:<class>` (last entry).
     `c10_ctor <order> <knots> <periodic> <tol>` → `[ok, validB]` | `err:ValueError`
       (`BSplineBasis.__init__`, and whether the accepted basis is semantically `Valid`).
     `c10_wf <obj>` → `wfB`. -/
@@ -148,7 +188,7 @@ def handle : Handler
       let some tol := tolv.toRat? | return bad
       let some il := iv.toList? | return bad
       let some ins := il.mapM decodeInstr | return bad
-      return .list [.list (pool.map (fun o => Val.ofBool o.wfB)), .list (traceSym tol pool ins)]
+      return .list [.list (pool.map (fun o => .list [Val.ofBool o.wfB, encodeAcc tol o])), .list (traceSym tol pool ins)]
   | "c10_ctor", [pv, kv, perv, tolv] => some <| Id.run do
       let some p := pv.toInt? | return bad
       let some ks := kv.toRats? | return bad
